@@ -247,6 +247,24 @@ func (c *Conn) Close() error {
 	return nil
 }
 
+// Abort closes the connection the way a socket with SO_LINGER 0 (or a crashed process) does: an RST goes out
+// instead of a FIN, whatever was still queued is discarded, the peer's pending and later reads fail with
+// ECONNRESET and its writes fail at once.
+func (c *Conn) Abort() error {
+	vrt.Point("net.Abort " + c.Name)
+	if c.closed {
+		return &net.OpError{Op: "close", Net: "tcp", Err: net.ErrClosed}
+	}
+	c.closed = true
+	c.out.wclosed = true
+	c.in.rclosed = true
+	c.out.aborted = true
+	c.out.reset = true
+	vrt.Bump()
+	c.logOp("abort", 0, nil)
+	return nil
+}
+
 // CloseWrite shuts down the sending side (the peer reads EOF after the queued bytes).
 func (c *Conn) CloseWrite() error {
 	vrt.Point("net.CloseWrite " + c.Name)
